@@ -17,7 +17,8 @@ WIDTH_CTX = ["stmt", "stmt_nested", "linecomment", "linecomment_tab", "eol_comme
              "in_second_function", "header_proto", "header_define", "header_member", "global_decl", "ctrl_line", "decl_line",
              "block_after_function", "eol_comment_block", "two_long_lines_one_statement", "long_second_line_of_statement",
              "line_ending_in_splice", "two_long_lines_in_prototype", "block_mid_between_signature_and_brace",
-             "block_mid_in_struct", "block_mid_before_endif", "linecomment_between_signature_and_brace", "block_mid_trigraph"]
+             "block_mid_in_struct", "block_mid_before_endif", "linecomment_between_signature_and_brace", "block_mid_trigraph",
+             "block1_leading_headerless", "linecomment_leading_headerless", "block1_second_leading_headerless"]
 LINES_CTX = ["plain", "with_decls", "with_blocks", "second_function", "nested_blocks", "wrapped_call2", "wrapped_call3",
              "wrapped_condition", "wrapped_assign_in_block", "else_chain", "nested_no_braces", "nested_no_braces_3",
              "no_braces_around_block", "no_brace_nest_at_end", "nest_then_else", "nested_in_block",
@@ -217,6 +218,22 @@ def build(limit, ctx, n, ex):
                 b.add("int\tmain(void); // ")  # 4 + 11 + 4 = 19 .. "int" + tab -> col 5; "main(void);" 11 -> 15; " // " 4 -> 19
                 b.filler(w - 19, CC)
                 b.add("\n")
+            elif ctx in ("block1_leading_headerless", "linecomment_leading_headerless", "block1_second_leading_headerless"):
+                # a file WITHOUT the 42 header whose leading comment block holds the measured line
+                b.items, b.line = [], 1
+                if ctx == "block1_second_leading_headerless":
+                    b.add("/* first */\n")
+                target = b.line
+                if ctx.startswith("block1"):
+                    b.add("/* ")
+                    b.filler(w - 6, CC)
+                    b.add(" */\n")
+                else:
+                    b.add("// ")
+                    b.filler(w - 3, CC)
+                    b.add("\n")
+                b.add("\n" + SIMPLE_FUNC)
+                return name, b.items, [("LINE_TOO_LONG", target, w > 80)], target
             elif ctx == "block1":
                 target = b.line
                 b.add("/* ")
